@@ -1,4 +1,5 @@
 pub mod arena;
+pub mod big;
 pub mod eng;
 pub mod ev;
 pub mod smt;
